@@ -1024,7 +1024,7 @@ def gen_program(seed: int, profile: dict) -> list[dict]:
 PROFILES = {
     "c01": dict(functional=["bin", "bin", "un", "power", "red", "red", "matmul", "where", "join", "gathercopy",
                             "act", "cum", "seq", "einsum", "conv", "pool", "loss"],
-                w_func=0.75, w_view=0.25, w_inplace=0.0, max_leaves=3, max_steps=8, p_const_leaf=0.2),
+                w_func=0.75, w_view=0.25, w_inplace=0.0, max_leaves=3, max_steps=8, p_const_leaf=0.2, p_forder_leaf=0.2),
     # C02: short programs (one to three operations) ended by backward with a non-trivial seed: every operation's VJP on
     # random shapes / broadcasts / options, beyond the fixed cells of OpTable.tla
     "c02": dict(functional=["bin", "bin", "un", "power", "red", "red", "matmul", "where", "join", "gathercopy",
